@@ -857,3 +857,404 @@ def gen_C14(rng, tier):
             h.ops.append("%s=eval %s %s" % (h.newe(), f, p))
         L.append(h.line())
     return L
+
+
+# ---------------------------------------------------------------------------------------------
+# C15 printing / parsing
+
+ADMISSIBLE_UNI = ["X", "x", "T", "Var", "t1", "Z"]
+ADMISSIBLE_BIV = [("X", "Y"), ("x", "y"), ("S", "T"), ("u", "v"), ("Y", "X"), ("p1", "q2"), ("Zed", "W")]
+
+
+def names_ok(desc, names):
+    """admissible: ASCII letter followed by letters/digits; pairwise no prefix relation ignoring case, also with the field variable 'a'"""
+    allv = [n.lower() for n in names] + ([] if desc[0] == "P" else ["a"])
+    for i, a in enumerate(allv):
+        for j, b in enumerate(allv):
+            if i != j and (a.startswith(b) or b.startswith(a)):
+                return False
+    return True
+
+
+def decorate(rng, s, names):
+    """documented notational freedoms applied to a printed form"""
+    k = rng.randrange(5)
+    out = s
+    if k == 0:
+        out = out.replace("^", "")           # Singular style exponents
+    elif k == 1:
+        for n in names:
+            out = out.replace(n, n.swapcase())
+    elif k == 2:
+        out = out.replace(" + ", "+")
+    elif k == 3:
+        out = "  " + out.replace(" + ", "  +  ") + " "
+    return out
+
+
+def gen_C15(rng, tier):
+    """phase 1 lines only print; check.py builds phase 2 (re-parse of the printed forms) from the Go output"""
+    L = []
+    n = 1500 if tier == "thorough" else 300
+    for _ in range(n):
+        desc = pick_field(rng, small=0.6, mid=0.3)
+        uv = rng.choice(ADMISSIBLE_UNI)
+        bv = rng.choice(ADMISSIBLE_BIV)
+        if not names_ok(desc, [uv]) or not names_ok(desc, list(bv)):
+            continue
+        h = H(rng, desc, uspec="U:%s:-" % hexs(uv), bspec=bspec(rng, names=bv))
+        for _ in range(3):
+            e = h.elem()
+            h.ops.append("show %s" % e)
+        for _ in range(2):
+            p = h.upoly(deg=rng.choice([0, 1, 2, 3, 5, 9]), sparse=rng.random() < 0.5)
+            h.ops.append("obs %s" % p)
+        for _ in range(2):
+            q = h.bpoly(nterms=rng.choice([0, 1, 2, 3, 5]), box=rng.choice([2, 4, 12]))
+            h.ops.append("obs %s" % q)
+        L.append(h.line())
+    return L
+
+
+# ---------------------------------------------------------------------------------------------
+# C16 alias histories (snapshot after every op)
+
+def gen_C16(rng, tier):
+    L = []
+    n = 900 if tier == "thorough" else 160
+    for it in range(n):
+        desc = pick_field(rng, small=0.7, mid=0.25)
+        gens = "-"
+        h = H(rng, desc, bspec=bspec(rng), snap=True)
+        es = [h.elem() for _ in range(3)]
+        ps = [h.upoly(deg=rng.choice([0, 1, 2, 4])) for _ in range(3)]
+        qs = [h.bpoly(nterms=rng.choice([0, 1, 2, 3]), box=3) for _ in range(3)]
+        ids = []
+        for _ in range(rng.randrange(8, 30)):
+            k = rng.random()
+            if k < 0.25:
+                a, b = rng.choice(es), rng.choice(es)
+                kk = rng.random()
+                if kk < 0.3:
+                    r = rng.choice(es + [h.newe()])
+                    h.ops.append("%s=%s %s %s" % (r, rng.choice(["plus", "minus", "times"]), a, b)); es.append(r)
+                elif kk < 0.45:
+                    r = rng.choice(es + [h.newe()])
+                    op = rng.choice(["neg", "inv", "copy", "trace"])
+                    h.ops.append("%s=%s %s" % (r, op, a)); es.append(r)
+                elif kk < 0.55:
+                    r = h.newe(); h.ops.append("%s=pow %s %d" % (r, a, rng.choice([0, 1, 2, 5, 2 ** 64 - 1]))); es.append(r)
+                elif kk < 0.8:
+                    h.ops.append("%s %s %s" % (rng.choice(["add", "sub", "mult"]), a, b))
+                elif kk < 0.9:
+                    h.ops.append("prod %s %s %s" % (a, b, rng.choice(es)))
+                elif kk < 0.95:
+                    h.ops.append("setneg %s" % a)
+                else:
+                    h.ops.append("setu %s %d" % (a, rng.randrange(100)))
+                es = sorted(set(es))
+            elif k < 0.6:
+                a, b = rng.choice(ps), rng.choice(ps)
+                kk = rng.random()
+                if kk < 0.25:
+                    r = rng.choice(ps + [h.newu()])
+                    h.ops.append("%s=%s %s %s" % (r, rng.choice(["plus", "minus", "times"]), a, b)); ps.append(r)
+                elif kk < 0.4:
+                    r = rng.choice(ps + [h.newu()])
+                    h.ops.append("%s=%s %s" % (r, rng.choice(["neg", "normalize", "copy", "lt"]), a)); ps.append(r)
+                elif kk < 0.48:
+                    r = h.newu(); h.ops.append("%s=scale %s %s" % (r, a, rng.choice(es))); ps.append(r)
+                elif kk < 0.54:
+                    r = h.newu(); h.ops.append("%s=pow %s %d" % (r, a, rng.choice([0, 1, 2, 3]))); ps.append(r)
+                elif kk < 0.6:
+                    r = h.newe(); h.ops.append("%s=%s" % (r, rng.choice(["eval %s %s" % (a, rng.choice(es)), "coef %s %d" % (a, rng.randrange(5)), "lc %s" % a]))); es.append(r)
+                elif kk < 0.75:
+                    h.ops.append("%s %s %s" % (rng.choice(["add", "sub", "mult"]), a, b))
+                elif kk < 0.8:
+                    h.ops.append("setscale %s %s" % (a, rng.choice(es)))
+                elif kk < 0.88:
+                    h.ops.append("%s %s %d %s" % (rng.choice(["setcoef", "inc", "dec"]), a, rng.randrange(6), rng.choice(es)))
+                elif kk < 0.92:
+                    h.ops.append("setneg %s" % a)
+                elif kk < 0.95:
+                    h.ops.append("setzero %s" % a)
+                elif kk < 0.98:
+                    # quorem by a nonzero polynomial
+                    one = h.elem("1"); es.append(one)
+                    g = h.upoly(deg=rng.choice([0, 1, 2])); h.ops.append("inc %s %d %s" % (g, 3, one)); ps.append(g)
+                    d1, d2 = h.newu(), h.newu()
+                    h.ops.append("%s,%s=quorem %s %s" % (d1, d2, a, g)); ps += [d1, d2]
+                else:
+                    r = h.newu(); h.ops.append("%s=gcd %s %s" % (r, a, b) if rng.random() < 0.7 else "%s=gcd %s" % (r, a)); ps.append(r)
+                ps = sorted(set(ps)); es = sorted(set(es))
+            elif k < 0.92:
+                a, b = rng.choice(qs), rng.choice(qs)
+                kk = rng.random()
+                if kk < 0.25:
+                    r = rng.choice(qs + [h.newb()])
+                    h.ops.append("%s=%s %s %s" % (r, rng.choice(["plus", "minus", "times"]), a, b)); qs.append(r)
+                elif kk < 0.4:
+                    r = rng.choice(qs + [h.newb()])
+                    h.ops.append("%s=%s %s" % (r, rng.choice(["neg", "normalize", "copy", "lt"]), a)); qs.append(r)
+                elif kk < 0.48:
+                    r = h.newb(); h.ops.append("%s=scale %s %s" % (r, a, rng.choice(es))); qs.append(r)
+                elif kk < 0.53:
+                    r = h.newb(); h.ops.append("%s=pow %s %d" % (r, a, rng.choice([0, 1, 2]))); qs.append(r)
+                elif kk < 0.6:
+                    r = h.newe(); h.ops.append("%s=%s" % (r, rng.choice(["eval %s %s %s" % (a, rng.choice(es), rng.choice(es)), "coef %s %d:%d" % (a, rng.randrange(3), rng.randrange(3)), "lc %s" % a]))); es.append(r)
+                elif kk < 0.75:
+                    h.ops.append("%s %s %s" % (rng.choice(["add", "sub", "mult"]), a, b))
+                elif kk < 0.8:
+                    h.ops.append("setscale %s %s" % (a, rng.choice(es)))
+                elif kk < 0.9:
+                    h.ops.append("%s %s %d:%d %s" % (rng.choice(["setcoef", "inc", "dec"]), a, rng.randrange(3), rng.randrange(3), rng.choice(es)))
+                else:
+                    one = h.elem("1"); es.append(one)
+                    g = h.bpoly(nterms=1, box=2); h.ops.append("inc %s 2:1 %s" % (g, one)); qs.append(g)
+                    d1, d2 = h.newb(), h.newb()
+                    h.ops.append("%s,%s=quorem %s %s" % (d1, d2, a, g)); qs += [d1, d2]
+                    r = h.newb(); h.ops.append("%s=rem %s %s" % (r, a, g)); qs.append(r)
+                qs = sorted(set(qs)); es = sorted(set(es))
+            else:
+                # ideals (cheap ones: monomial-ish generators)
+                if not ids or rng.random() < 0.3:
+                    one = h.elem("1"); es.append(one)
+                    g1 = h.bpoly(nterms=1, box=2); h.ops.append("inc %s 1:1 %s" % (g1, one))
+                    g2 = h.bpoly(nterms=1, box=2); h.ops.append("inc %s 0:2 %s" % (g2, one))
+                    qs += [g1, g2]
+                    i = h.newi(); h.ops.append("%s=ideal@0 %s %s" % (i, g1, g2)); ids.append(i)
+                else:
+                    a = rng.choice(ids)
+                    kk = rng.random()
+                    if kk < 0.3:
+                        i = h.newi(); h.ops.append("%s=groebner %s" % (i, a)); ids.append(i)
+                    elif kk < 0.45:
+                        i = h.newi(); h.ops.append("%s=icopy %s" % (i, a)); ids.append(i)
+                    elif kk < 0.65:
+                        h.ops.append("%s %s" % (rng.choice(["isgroebner", "isminimal", "isreduced"]), a))
+                    elif kk < 0.85:
+                        h.ops.append("%s %s" % (rng.choice(["minimize", "reducebasis"]), a))
+                    else:
+                        ds = [h.newb() for _ in range(3)]
+                        h.ops.append("%s=gens %s" % (",".join(ds), a))
+                        # the returned generators are mutated afterwards: the ideal must not change
+                        h.ops.append("setscale %s %s" % (ds[0], rng.choice(es)))
+                        h.ops.append("obs %s" % a)
+        L.append(h.line())
+    return L
+
+
+# ---------------------------------------------------------------------------------------------
+# C17 errors
+
+GRAMMAR_ALPHABET = list("0123456789+-*^() aXY")
+
+
+def rand_string(rng, desc, maxlen=12):
+    k = rng.random()
+    if k < 0.4:
+        return "".join(rng.choice(GRAMMAR_ALPHABET) for _ in range(rng.randrange(0, maxlen)))
+    if k < 0.8:
+        # grammar-aware: terms with mutations
+        terms = []
+        for _ in range(rng.randrange(1, 4)):
+            c = rng.choice(["", "2", "3", "10", "(a + 1)", "(2a^2 + a)", "a", "a^2", "007", "-1", "18446744073709551616"])
+            v = rng.choice(["", "X", "X^2", "X2", "x^3", "XY", "X^2Y^3", "Y", "y2x", "X^", "X^2^3", "X Y", "Y*X", "X*", "XX", "X^99999999999999999999"])
+            terms.append(c + rng.choice(["", "*", " ", " * "]) + v)
+        s = rng.choice([" + ", "+", " - ", "-", " ", "++"]).join(terms)
+        if rng.random() < 0.3:
+            i = rng.randrange(0, len(s) + 1)
+            s = s[:i] + rng.choice(GRAMMAR_ALPHABET + ["b", ".", "/", "_"]) + s[i:]
+        return s[:40]
+    return "".join(chr(rng.randrange(32, 127)) for _ in range(rng.randrange(0, maxlen)))
+
+
+def gen_C17(rng, tier):
+    L = []
+    big = tier == "thorough"
+    # (a) invalid requests and sticky chains, snapshot after every op
+    for _ in range(900 if big else 170):
+        desc = pick_field(rng, small=0.7, mid=0.25)
+        uspec = "U:58:-"
+        quot = rng.random() < 0.3
+        if quot:
+            uspec, _ = umod_spec(rng, desc)
+        h = H(rng, desc, uspec=uspec, bspec=bspec(rng), snap=True)
+        good_e = [h.elem(), h.elem()]
+        z = h.elem("0")
+        bad_e = []
+        # sources of erroneous elements
+        r = h.newe(); h.ops.append("%s=inv %s" % (r, z)); bad_e.append(r)
+        o = h.newe(); h.ops.append("%s=enc@1 %s" % (o, rand_elem(desc, rng))); other_field = o
+        r = h.newe(); h.ops.append("%s=plus %s %s" % (r, good_e[0], other_field)); bad_e.append(r)
+        fo = h.newe(); h.ops.append("%s=foreign@0" % fo)
+        if rng.random() < 0.5:
+            r = h.newe(); h.ops.append("%s=copy %s" % (r, good_e[0])); h.ops.append("add %s %s" % (r, fo)); bad_e.append(r)
+        if rng.random() < 0.3:
+            r = h.newe(); h.ops.append("%s=copy %s" % (r, good_e[0])); h.ops.append("prod %s %s %s" % (r, fo, good_e[1])); bad_e.append(r)
+        pool = good_e + bad_e + [z]
+        for _ in range(rng.randrange(3, 14)):
+            a, b = rng.choice(pool), rng.choice(pool)
+            if rng.random() < 0.6:
+                a = rng.choice(bad_e) if rng.random() < 0.5 else a
+                b = rng.choice(bad_e) if rng.random() < 0.5 else b
+            k = rng.random()
+            if k < 0.35:
+                r = h.newe(); h.ops.append("%s=%s %s %s" % (r, rng.choice(["plus", "minus", "times"]), a, b)); pool.append(r)
+            elif k < 0.55:
+                r = h.newe(); h.ops.append("%s=%s %s" % (r, rng.choice(["neg", "inv", "copy", "trace"]), a)); pool.append(r)
+            elif k < 0.65:
+                r = h.newe(); h.ops.append("%s=pow %s %d" % (r, a, rng.choice([0, 1, 5]))); pool.append(r)
+            elif k < 0.85:
+                c = h.newe(); h.ops.append("%s=copy %s" % (c, a)); pool.append(c)
+                h.ops.append("%s %s %s" % (rng.choice(["add", "sub", "mult"]), c, b))
+            elif k < 0.95:
+                c = h.newe(); h.ops.append("%s=copy %s" % (c, good_e[0])); pool.append(c)
+                h.ops.append("prod %s %s %s" % (c, a, b))
+            else:
+                h.ops.append("eq %s %s" % (a, b))
+        # polynomials: erroneous ones arise from cross-ring arithmetic, zero divisors are errors of QuoRem
+        f0 = h.upoly(deg=3, ring=0); g2 = h.upoly(deg=2, ring=2)
+        badp = h.newu(); h.ops.append("%s=plus %s %s" % (badp, f0, g2))
+        zp = h.newu(); h.ops.append("%s=zero@0" % zp)
+        h.ops.append("%s,%s=quorem %s %s" % (h.newu(), h.newu(), f0, zp))
+        h.ops.append("%s,%s=quorem %s %s" % (h.newu(), h.newu(), f0, g2))
+        h.ops.append("%s=gcd %s %s" % (h.newu(), f0, g2))
+        h.ops.append("embed %s @2 0" % f0 if rng.random() < 0.2 else "obs %s" % f0)
+        upool = [f0, badp, h.upoly(deg=2, ring=0)]
+        for _ in range(rng.randrange(2, 9)):
+            a, b = rng.choice(upool), rng.choice(upool)
+            if rng.random() < 0.6:
+                a = badp if rng.random() < 0.5 else a
+                b = badp if rng.random() < 0.5 else b
+            k = rng.random()
+            if k < 0.4:
+                r = h.newu(); h.ops.append("%s=%s %s %s" % (r, rng.choice(["plus", "minus", "times"]), a, b)); upool.append(r)
+            elif k < 0.6:
+                r = h.newu(); h.ops.append("%s=%s %s" % (r, rng.choice(["neg", "normalize", "copy"]), a)); upool.append(r)
+            elif k < 0.7:
+                r = h.newu(); h.ops.append("%s=pow %s %d" % (r, a, rng.choice([0, 1, 3]))); upool.append(r)
+            elif k < 0.78:
+                r = h.newu(); h.ops.append("%s=scale %s %s" % (r, a, rng.choice(good_e))); upool.append(r)
+            else:
+                c = h.newu(); h.ops.append("%s=copy %s" % (c, a)); upool.append(c)
+                h.ops.append("%s %s %s" % (rng.choice(["add", "sub", "mult"]), c, b))
+        q0 = h.bpoly(nterms=3, box=3, ring=0); q2 = h.bpoly(nterms=2, box=3, ring=2)
+        badq = h.newb(); h.ops.append("%s=plus %s %s" % (badq, q0, q2))
+        zq = h.newb(); h.ops.append("%s=zero@0" % zq)
+        h.ops.append("%s,%s=quorem %s %s" % (h.newb(), h.newb(), q0, zq))
+        h.ops.append("%s=rem %s %s" % (h.newb(), q0, zq))
+        h.ops.append("%s,%s=quorem %s %s" % (h.newb(), h.newb(), q0, q2))
+        h.ops.append("%s=ideal@0 %s" % (h.newi(), zq))
+        h.ops.append("%s=ideal@0 %s %s" % (h.newi(), q0, q2))
+        bpool = [q0, badq, h.bpoly(nterms=2, box=3, ring=0)]
+        for _ in range(rng.randrange(2, 9)):
+            a, b = rng.choice(bpool), rng.choice(bpool)
+            if rng.random() < 0.6:
+                a = badq if rng.random() < 0.5 else a
+                b = badq if rng.random() < 0.5 else b
+            k = rng.random()
+            if k < 0.4:
+                r = h.newb(); h.ops.append("%s=%s %s %s" % (r, rng.choice(["plus", "minus", "times"]), a, b)); bpool.append(r)
+            elif k < 0.6:
+                r = h.newb(); h.ops.append("%s=%s %s" % (r, rng.choice(["neg", "normalize", "copy"]), a)); bpool.append(r)
+            elif k < 0.7:
+                r = h.newb(); h.ops.append("%s=pow %s %d" % (r, a, rng.choice([0, 1, 3]))); bpool.append(r)
+            elif k < 0.78:
+                r = h.newb(); h.ops.append("%s=scale %s %s" % (r, a, rng.choice(good_e + [z]))); bpool.append(r)
+            else:
+                c = h.newb(); h.ops.append("%s=copy %s" % (c, a)); bpool.append(c)
+                h.ops.append("%s %s %s" % (rng.choice(["add", "sub", "mult"]), c, b))
+        # interpolation with inconsistent data
+        h.ops.append("%s=interp@0 %s %s" % (h.newu(), ",".join([good_e[0], good_e[0]]), ",".join([good_e[1], good_e[1]])))
+        h.ops.append("%s=interp@0 %s %s" % (h.newu(), good_e[0], ",".join([good_e[1], good_e[1]])))
+        h.ops.append("%s=interp@0 %s %s %s" % (h.newb(), ",".join([good_e[0], good_e[0]]), ",".join([good_e[1], good_e[1]]), ",".join([z, z])))
+        L.append(h.line())
+    # (b) strings: exhaustive short strings over the grammar alphabet, seeded longer strings
+    alpha = list("01+-^ aX(Y*)9")
+    shorts = [""] + [a for a in alpha] + [a + b for a in alpha for b in alpha]
+    if big:
+        shorts += [a + b + c for a in alpha for b in alpha for c in alpha]
+    rng.shuffle(shorts)
+    strings = shorts[: (len(shorts) if big else 180)] + [rand_string(rng, "") for _ in range(6000 if big else 700)]
+    descs = [field_desc(7, 1), field_desc(2, 3), field_desc(3, 2), field_desc(65537, 1), field_desc(2, 12), field_desc(5, 3)]
+    per = 12
+    for i in range(0, len(strings), per):
+        desc = descs[(i // per) % len(descs)]
+        h = H(rng, desc, bspec=bspec(rng, order="lex.1"))
+        for s in strings[i:i + per]:
+            hx = hexs(s) if s else "-"
+            if hx == "-":
+                hx = ""
+            # empty strings travel as the token `00`-free marker: use a single space-free placeholder
+            tok = hx if hx else "EMPTY"
+            h.ops.append("%s=str@0 %s" % (h.newe(), tok))
+            h.ops.append("%s=str@0 %s" % (h.newu(), tok))
+            h.ops.append("%s=str@0 %s" % (h.newb(), tok))
+        L.append(h.line())
+    return L
+
+
+# ---------------------------------------------------------------------------------------------
+# C18 tables: the same histories, the implementation computes tables at some point, the model has none
+
+def gen_C18(rng, tier):
+    L = []
+    n = 800 if tier == "thorough" else 150
+    pool = [(3, 1), (5, 1), (7, 1), (13, 1), (31, 1), (251, 1), (257, 1), (1021, 1), (3, 2), (3, 3), (5, 2), (7, 2), (3, 4), (11, 2), (5, 3), (13, 2)]
+    for _ in range(n):
+        p, k = rng.choice(pool)
+        desc = field_desc(p, k)
+        h = H(rng, desc, bspec=bspec(rng), snap=True)
+        es = [h.elem() for _ in range(3)] + [h.elem("0"), h.elem("1")]
+        ps = [h.upoly(deg=rng.choice([1, 2, 4])) for _ in range(2)]
+        qs = [h.bpoly(nterms=rng.choice([1, 2, 3]), box=3) for _ in range(2)]
+        nops = rng.randrange(6, 22)
+        when = sorted({rng.randrange(0, nops) for _ in range(rng.choice([1, 1, 2, 3]))})
+        for i in range(nops):
+            if i in when:
+                mm = rng.choice(["-", "-", "0", "1", "100000", str(2 ** 64 - 1)])
+                if mm == "-" or rng.random() < 0.5:
+                    # exact estimate boundary for prime fields
+                    if desc[0] == "P" and rng.random() < 0.4:
+                        est = (p * (p + 1) * 4) >> 10
+                        mm = str(max(0, est + rng.choice([-1, 0, 1])))
+                h.ops.append("tables@0 %d %d %s" % (rng.randrange(2), rng.randrange(2), mm))
+            k2 = rng.random()
+            a, b = rng.choice(es), rng.choice(es)
+            if k2 < 0.3:
+                r = h.newe(); h.ops.append("%s=%s %s %s" % (r, rng.choice(["plus", "minus", "times"]), a, b)); es.append(r)
+            elif k2 < 0.45:
+                r = h.newe(); h.ops.append("%s=%s %s" % (r, rng.choice(["neg", "inv", "trace", "copy"]), a)); es.append(r)
+            elif k2 < 0.55:
+                r = h.newe(); h.ops.append("%s=pow %s %d" % (r, a, rng.choice(exps(rng, desc_card(desc))))); es.append(r)
+            elif k2 < 0.7:
+                h.ops.append("%s %s %s" % (rng.choice(["add", "sub", "mult"]), a, b))
+            elif k2 < 0.75:
+                h.ops.append("prod %s %s %s" % (a, b, rng.choice(es)))
+            elif k2 < 0.85:
+                x, y = rng.choice(ps), rng.choice(ps)
+                kk = rng.random()
+                if kk < 0.4:
+                    r = h.newu(); h.ops.append("%s=%s %s %s" % (r, rng.choice(["plus", "times"]), x, y)); ps.append(r)
+                elif kk < 0.6:
+                    r = h.newe(); h.ops.append("%s=eval %s %s" % (r, x, a)); es.append(r)
+                elif kk < 0.8:
+                    one = es[4]
+                    g = h.upoly(deg=1); h.ops.append("inc %s 2 %s" % (g, one))
+                    h.ops.append("%s,%s=quorem %s %s" % (h.newu(), h.newu(), x, g))
+                else:
+                    r = h.newu(); h.ops.append("%s=pow %s 3" % (r, x)); ps.append(r)
+            elif k2 < 0.95:
+                x, y = rng.choice(qs), rng.choice(qs)
+                kk = rng.random()
+                if kk < 0.5:
+                    r = h.newb(); h.ops.append("%s=%s %s %s" % (r, rng.choice(["plus", "times"]), x, y)); qs.append(r)
+                else:
+                    r = h.newe(); h.ops.append("%s=eval %s %s %s" % (r, x, a, b)); es.append(r)
+            else:
+                pts = es[:3]
+                if len({h.ops[int(x[1:])].split()[-1] for x in pts if int(x[1:]) < 3}) == 3:
+                    h.ops.append("%s=interp@0 %s %s" % (h.newu(), ",".join(pts), ",".join([a, b, a])))
+        L.append(h.line())
+    return L
